@@ -172,3 +172,29 @@ fn c_hint_vs_spec_small() {
         _ => { assert!(false, "accept/reject mismatch"); }
     }
 }
+
+// windowed form at full ML-DSA-44 size: counts symbolic, 4 index bytes symbolic, concrete increasing background
+#[kani::proof]
+#[kani::unwind(258)]
+#[kani::stub(zeroize::optimization_barrier, barrier_stub)]
+#[kani::stub(<crate::types::R as core::ops::Drop>::drop, r_zeroize_stub)]
+fn c_hint_windowed_44() {
+    const K: usize = 4; const OMEGA: usize = 80; const W0: usize = 10;
+    let mut y = [0u8; OMEGA + K];
+    let mut i = 0; while i < OMEGA { y[i] = (i * 3) as u8; i += 1; }
+    y[W0] = kani::any(); y[W0 + 1] = kani::any(); y[W0 + 2] = kani::any(); y[W0 + 3] = kani::any();
+    y[OMEGA] = kani::any(); y[OMEGA + 1] = kani::any(); y[OMEGA + 2] = kani::any(); y[OMEGA + 3] = kani::any();
+    let r = hint_bit_unpack::<K>(OMEGA as i32, &y);
+    let s = spec_hint_unpack::<K>(OMEGA, &y);
+    match (r, s) {
+        (Ok(h), Some(hs)) => {
+            let p: usize = kani::any(); kani::assume(p < 256);
+            let k: usize = kani::any(); kani::assume(k < K);
+            assert!(h[k].0[p] == hs[k][p] as i32);
+            kani::cover!(h[k].0[p] == 1);
+            core::mem::forget(h);
+        }
+        (Err(_), None) => { kani::cover!(true); }
+        _ => { assert!(false, "accept/reject mismatch"); }
+    }
+}
